@@ -31,7 +31,12 @@ MANIFEST = dict(
          "weighted sum of the Murphy quantile / Huber(a=d) / expectile elementary scores computed by murphy_impl.py's kernels "
          "(with 'upper': their left limit theta -> t from below, for every discount kind); a risk-matrix case is the double sum of weight*p (forecast at/above "
          "p, event absent) and weight*(1-p) (below p, event present), NaN anywhere gives NaN (skipna=False read off the source); "
-         "matrix_weights_to_array labels row i with the i-th largest threshold for any order of the supplied coordinates.",
+         "matrix_weights_to_array labels row i with the i-th largest threshold for any order of the supplied coordinates; "
+         "the model of _check_firm_inputs / the value checks of _check_risk_matrix_score_inputs raises exactly outside the documented "
+         "domains (0 < alpha < 1 both boundaries excluded, weights > 0, discount >= 0, >= 1 threshold, equal lengths, assignment "
+         "in {upper, lower}; fcst in [0,1], obs in {0,1,nan}, probability thresholds strictly in (0,1)) and the implementation is "
+         "probed against those domains on a deterministic boundary grid (values exactly on each boundary, int / float / numpy "
+         "scalar types, every array position) plus a random one/two-fault stream.",
     note="Trusted: Lean kernel; py2lean translator; SV.Fl (no rounding); hand model of the firm loop/sum/mean, of the risk-matrix "
          "reduction, of matrix_weights_to_array and of _scaling_to_weight_matrix (differential correspondence only). "
          "_scaling_to_weight_matrix: only shape and non-negativity are proved (about the literal model); its content is compared with "
@@ -44,8 +49,11 @@ MANIFEST = dict(
 RULE = ("FIRM: 2-D (a x b) dyadic fcst/obs (30 % obs copied from fcst), 1-3 thresholds as scalars or DataArrays over a subset of "
         "the dims with 50 % of values copied from fcst/obs and NaN, weights scalar or DataArray with NaN, alpha dyadic, "
         "discount in {0, 0.25..2, inf}, both assignments; risk matrix: 1-3 severity categories x 1-3 probability thresholds, "
-        "fcst copied from a threshold 50 %, obs in {0,1,nan}; distinct = canonical input hash; non-trivial = some non-zero "
-        "finite output")
+        "fcst copied from a threshold 50 %, obs in {0,1,nan}; guards: fixed valid base with every parameter set exactly on / just "
+        "inside / just outside its boundary (alpha 0, 1 as int/float/np.float64/np.float32/np.int64, discount 0 and < 0, weight 0 "
+        "scalar and at each array position, no threshold, unequal lengths, invalid assignment; fcst/obs/probability-threshold "
+        "values per position) + random valid base with 0-2 faults, expecting ValueError exactly outside the documented domain; "
+        "distinct = canonical input hash; non-trivial = some non-zero finite output")
 
 # F10 (risk_matrix_score compared the severity dimension name by identity) is repaired in /repo (`!=`): dimension-name
 # arguments are freshly built, non-interned str objects.  C12_FRESH_DIMS=0 falls back to interned literals.
@@ -300,36 +308,216 @@ def run_firm_batch(ctx, batch, kind, op, n, murphy=False, mode=None):
                          theorem="firm_lower_eq_murphy")
 
 
+# ---- malformed / boundary stream of firm: every parameter exactly ON its boundary, one fault at a time
+TINY = 2.0 ** -20
+NTY = ["int", "float", "np.float64", "np.float32", "np.int64"]
+
+
+def N(v, ty="float"):
+    return {"v": v, "ty": ty}
+
+
+def mk_num(s):
+    v, ty = s["v"], s["ty"]
+    if ty == "int":
+        return int(v)
+    if ty == "float":
+        return float(v)
+    return getattr(np, ty[3:])(v)
+
+
+ALPHA_OK = [N(0.5), N(0.25), N(0.75, "np.float64"), N(TINY), N(1 - TINY), N(0.5, "np.float32"), N(1 - TINY, "np.float64"),
+            N(TINY, "np.float32")]
+ALPHA_BAD = ([N(v, ty) for v in (0, 1) for ty in NTY] +
+             [N(-0.0), N(1 + TINY), N(-TINY), N(1 + TINY, "np.float64"), N(-TINY, "np.float32"), N(1.5), N(-0.5), N(2, "int"),
+              N(-1, "int"), N(core.INF), N(-core.INF)])
+D_OK = [N(0, "int"), N(0.0), N(-0.0), N(0, "np.int64"), N(0.0, "np.float64"), N(0.0, "np.float32"), N(0.5), N(TINY), N(1, "int"),
+        N(core.INF), N(2.0, "np.float32")]
+D_BAD = [N(-TINY), N(-0.5), N(-1, "int"), N(-1, "np.int64"), N(-0.25, "np.float64"), N(-TINY, "np.float32"), N(-core.INF)]
+W_OK = [N(1.0), N(2, "int"), N(0.5, "np.float64"), N(TINY), N(3, "np.int64"), N(0.25, "np.float32")]
+W_BAD = ([N(0, ty) for ty in NTY] + [N(-0.0), N(-TINY), N(-1, "int"), N(-1.0), N(-TINY, "np.float64"), N(-core.INF)])
+W_BAD_ELEM = [0.0, -0.0, -TINY, -1.0, -core.INF]
+MODE_BAD = ["Lower", "UPPER", "middle", "", " lower", "lower ", "both", "left", "low", "uppe"]
+FB_SHAPE = {"a": (2,), "b": (2,), "ab": (2, 2)}
+
+
+def _warr(dims, vals, dt="float"):
+    return {"arr": vals, "dims": dims, "dt": dt}
+
+
+def _set_elem(vals, pos, v):
+    vals = [list(r) if isinstance(r, list) else r for r in vals]
+    if len(pos) == 1:
+        vals[pos[0]] = v
+    else:
+        vals[pos[0]][pos[1]] = v
+    return vals
+
+
+def firm_bad_base():
+    return dict(ths=[1.0, 2.0], ws=[N(1.0), N(2.0)], alpha=N(0.5), d=N(0, "int"), mode="lower", fault=[])
+
+
+def firm_bad_grid():
+    """deterministic single-fault grid on a fixed valid base: every boundary value of every parameter, every number type"""
+    out = []
+
+    def put(fault, **kw):
+        out.append(dict(firm_bad_base(), fault=[fault], **kw))
+    for s in ALPHA_OK:
+        put("alpha-ok", alpha=s)
+    for s in ALPHA_BAD:
+        put("alpha", alpha=s)
+        put("alpha", alpha=s, d=N(2.0), mode="upper")
+    for s in D_OK:
+        put("d-ok", d=s)
+    for s in D_BAD:
+        put("d", d=s)
+    for s in W_OK:
+        put("w-ok", ws=[s, N(1.0)])
+    for k, s in enumerate(W_BAD):
+        put("w-scalar", ws=[s, N(1.0)] if k % 2 == 0 else [N(1.0), s])
+    for dims, shape in FB_SHAPE.items():
+        ones = [1.0, 2.0] if len(shape) == 1 else [[1.0, 2.0], [0.5, 3.0]]
+        put("w-ok", ws=[N(1.0), _warr(dims, _set_elem(ones, (0,) * len(shape), NAN))])
+        put("w-ok", ws=[_warr(dims, _set_elem(ones, (1,) * len(shape), TINY)), N(1.0)])
+        for pos in np.ndindex(shape):
+            for k, v in enumerate(W_BAD_ELEM[:3]):
+                w = _warr(dims, _set_elem(ones, pos, v))
+                put("w-array", ws=[w, N(1.0)] if k % 2 else [N(1.0), w])
+    put("w-array", ws=[_warr("a", [1, 0], "int"), N(1.0)])
+    put("w-array", ws=[N(1.0), _warr("ab", [[1, 2], [3, -1]], "int")])
+    put("w-ok", ws=[_warr("a", [1, 2], "int"), N(1.0)])
+    put("nt0", ths=[], ws=[])
+    put("len", ths=[1.0, 2.0], ws=[N(1.0)])
+    put("len", ths=[1.0], ws=[N(1.0), N(2.0)])
+    put("len", ths=[], ws=[N(1.0)])
+    put("len", ths=[1.0], ws=[])
+    for m in MODE_BAD:
+        put("mode", mode=m)
+    put("mode-ok", mode="upper")
+    return out
+
+
 def gen_firm_bad(rng):
-    nt = rng.choice([0, 1, 2])
-    nw = rng.choice([nt, nt, nt, nt + 1])
-    ths = [rng.choice([0.5, 1.0, 2.0]) for _ in range(nt)]
-    ws = [rng.choice([1.0, 2.0, 0.0, -1.0, "arr-ok", "arr-zero", "arr-nan"]) for _ in range(nw)]
-    return dict(ths=ths, ws=ws, alpha=rng.choice([0.5, 0.25, 0, 1, -0.5, 1.5]), d=rng.choice([0, 0.5, -0.5, core.INF, -0.0]),
-                mode=rng.choice(["lower", "upper", "Lower", "middle", ""]))
+    """valid base drawn at random, then 0 (15 %), 1 (65 %) or 2 (20 %) faults"""
+    nt = rng.choice([1, 1, 2, 3])
+
+    def wok():
+        r = rng.random()
+        if r < 0.6:
+            return dict(rng.choice(W_OK))
+        dims = rng.choice(list(FB_SHAPE))
+        shape = FB_SHAPE[dims]
+        draw = lambda: NAN if rng.random() < 0.15 else rng.choice([1.0, 2.0, 0.5, TINY, 3.0])
+        vals = [draw() for _ in range(2)] if len(shape) == 1 else [[draw() for _ in range(2)] for _ in range(2)]
+        return _warr(dims, vals)
+    ths = []
+    for _ in range(nt):
+        ths.append(rng.choice([0.5, 1.0, 2.0, 1.5]) if rng.random() < 0.7 else
+                   _warr(rng.choice(["a", "b"]), [rng.choice([0.5, 1.0, 2.0, NAN]), rng.choice([1.0, 2.5])]))
+    b = dict(ths=ths, ws=[wok() for _ in range(nt)], alpha=dict(rng.choice(ALPHA_OK)), d=dict(rng.choice(D_OK)),
+             mode=rng.choice(["lower", "upper"]), fault=[])
+    r = rng.random()
+    nf = 0 if r < 0.15 else (1 if r < 0.8 else 2)
+    for fault in rng.sample(["alpha", "alpha", "d", "w-scalar", "w-array", "nt0", "len", "mode"], nf):
+        if fault in b["fault"]:
+            continue
+        b["fault"].append(fault)
+        if fault == "alpha":
+            b["alpha"] = dict(rng.choice(ALPHA_BAD))
+        elif fault == "d":
+            b["d"] = dict(rng.choice(D_BAD))
+        elif fault == "w-scalar" and b["ws"]:
+            b["ws"][rng.randrange(len(b["ws"]))] = dict(rng.choice(W_BAD))
+        elif fault == "w-array" and b["ws"]:
+            dims = rng.choice(list(FB_SHAPE))
+            shape = FB_SHAPE[dims]
+            draw = lambda: NAN if rng.random() < 0.2 else rng.choice([1.0, 2.0, 0.5, TINY])
+            vals = [draw() for _ in range(2)] if len(shape) == 1 else [[draw() for _ in range(2)] for _ in range(2)]
+            pos = tuple(rng.randrange(2) for _ in shape)
+            b["ws"][rng.randrange(len(b["ws"]))] = _warr(dims, _set_elem(vals, pos, rng.choice(W_BAD_ELEM)))
+        elif fault == "nt0":
+            b["ths"], b["ws"] = [], []
+        elif fault == "len":
+            if rng.random() < 0.5 and b["ws"]:
+                b["ws"] = b["ws"][:-1]
+            else:
+                b["ws"] = b["ws"] + [N(1.0)]
+        elif fault == "mode":
+            b["mode"] = rng.choice(MODE_BAD)
+    return b
+
+
+def _fb_da(spec):
+    dims = list(spec["dims"])
+    return xr.DataArray(np.array(spec["arr"], dtype=(int if spec.get("dt") == "int" else float)), dims=dims)
+
+
+def _fb_obj(spec):
+    if isinstance(spec, dict) and "arr" in spec:
+        return _fb_da(spec)
+    if isinstance(spec, dict):
+        return mk_num(spec)
+    return spec
+
+
+def _fb_flat(spec):
+    if isinstance(spec, dict) and "arr" in spec:
+        return [float(x) for x in np.array(spec["arr"], dtype=float).ravel()]
+    return [float(mk_num(spec))]
 
 
 def firm_bad_outcome(b):
+    """'ok' (returned a Dataset) / exception class"""
     from scores.categorical import firm
-    f = xr.DataArray([1.0, 2.0], dims=["a"]); o = xr.DataArray([2.0, 0.0], dims=["a"])
-    arrs = {"arr-ok": [1.0, 2.0], "arr-zero": [1.0, 0.0], "arr-nan": [NAN, 2.0]}
-    ws = [xr.DataArray(arrs[w], dims=["a"]) if isinstance(w, str) else w for w in b["ws"]]
+    f = xr.DataArray([[1.0, 2.0], [3.0, 0.0]], dims=["a", "b"]); o = xr.DataArray([[2.0, 0.0], [1.0, 3.0]], dims=["a", "b"])
     try:
         with np.errstate(all="ignore"):
-            firm(f, o, b["alpha"], b["ths"], ws, discount_distance=b["d"], threshold_assignment=b["mode"])
-        return "ok"
+            r = firm(f, o, mk_num(b["alpha"]), [_fb_obj(t) for t in b["ths"]], [_fb_obj(w) for w in b["ws"]],
+                     discount_distance=mk_num(b["d"]), threshold_assignment=fresh(b["mode"]))
+        return "ok" if isinstance(r, xr.Dataset) else "returned " + type(r).__name__
     except Exception as ex:  # noqa: BLE001
         return core.exc_class(ex)
 
 
-def firm_bad_op(b):
-    arrs = {"arr-ok": [1.0, 2.0], "arr-zero": [1.0, 0.0], "arr-nan": [NAN, 2.0]}
+def firm_bad_op(b, op="c12.firm_check"):
     flat = []
     for w in b["ws"]:
-        flat += arrs[w] if isinstance(w, str) else [w]
-    return {"op": "c12.firm_check", "args": {"nt": len(b["ths"]), "nw": len(b["ws"]), "alpha": core.fl_str(b["alpha"]),
-                                             "weights": [core.fl_str(x) for x in flat], "d": core.fl_str(b["d"]),
-                                             "mode": b["mode"]}}
+        flat += _fb_flat(w)
+    return {"op": op, "args": {"nt": len(b["ths"]), "nw": len(b["ws"]), "alpha": core.fl_str(float(mk_num(b["alpha"]))),
+                               "weights": [core.fl_str(x) for x in flat], "d": core.fl_str(float(mk_num(b["d"]))),
+                               "mode": b["mode"]}}
+
+
+def tag_firm_bad(ctx, b):
+    ctx.tag("malformed")
+    for fl in (b.get("fault") or ["none"]):
+        ctx.tag("firm-guard:" + fl)
+    a = float(mk_num(b["alpha"]))
+    if a in (0.0, 1.0):
+        ctx.tag("firm-guard:alpha==%d:%s" % (int(a), b["alpha"]["ty"]))
+    if float(mk_num(b["d"])) == 0.0:
+        ctx.tag("firm-guard:d==0")
+
+
+def firm_guard_batch(ctx, batch, kind, n_random):
+    """raise / return of firm on the boundary grid + random stream vs the model's guard (correspondence) or the documented
+    domain Spec.Firm.firmDomain (property)"""
+    bads = firm_bad_grid() + [gen_firm_bad(ctx.rng) for _ in range(n_random)]
+    op = "c12.firm_check" if kind == "correspondence" else "c12.firm_domain"
+    res = core.run_driver("C12", [firm_bad_op(b, op) for b in bads])
+    for b, m in zip(bads, res):
+        raises = bool(m) if kind == "correspondence" else not bool(m)
+        ctx.case(batch, b, nontrivial=False)
+        tag_firm_bad(ctx, b)
+        got = firm_bad_outcome(b)
+        exp = "ValueError" if raises else "ok"
+        if got != exp:
+            sig = "guard" if kind == "correspondence" else ("accepts-outside-domain" if raises else "rejects-inside-domain")
+            ctx.fail(batch, kind, "firm", sig, dict(b, check="firm-guard"), observed=got, expected=exp,
+                     tags={"fault": "+".join(b.get("fault") or ["none"])},
+                     theorem=None if kind == "correspondence" else "firm_guard_iff_domain")
 
 
 # ------------------------------------------------------------------------------------------ risk matrix
@@ -407,22 +595,155 @@ def rm_compare(c, res, key):
     return fails
 
 
+# ---- malformed / boundary stream of risk_matrix_score: 2 cases x 2 severity categories x 2 probability thresholds
+F_OK = [0.0, 1.0, 0.5, TINY, 1 - TINY, NAN, -0.0]
+F_BAD = [1 + TINY, -TINY, 1.25, -0.25, 2.0, core.INF, -core.INF]
+O_OK = [0.0, 1.0, NAN, -0.0]
+O_BAD = [0.5, 2.0, -1.0, TINY, 1 - TINY, 1 + TINY, core.INF, -core.INF]
+P_OK = [TINY, 1 - TINY, 0.5]
+P_BAD = [0.0, 1.0, -0.0, -TINY, 1 + TINY, 1.5, -0.25, core.INF]
+
+
+def rm_bad_base():
+    return dict(fcst=[[0.5, 0.0], [1.0, 0.25]], obs=[[0.0, 1.0], [1.0, 0.0]], probs=[0.25, 0.75], pint=False, oint=False,
+                mode="lower", fault=[])
+
+
+def rm_bad_grid():
+    out = []
+
+    def put(fault, **kw):
+        out.append(dict(rm_bad_base(), fault=[fault], **kw))
+    base = rm_bad_base()
+    for pos in np.ndindex((2, 2)):
+        for v in F_OK:
+            put("fcst-ok", fcst=_set_elem(base["fcst"], pos, v))
+        for v in F_BAD:
+            put("fcst", fcst=_set_elem(base["fcst"], pos, v))
+        for v in O_OK:
+            put("obs-ok", obs=_set_elem(base["obs"], pos, v))
+        for v in O_BAD:
+            put("obs", obs=_set_elem(base["obs"], pos, v))
+    put("obs", obs=[[0, 1], [2, 0]], oint=True)
+    put("obs", obs=[[0, -1], [1, 0]], oint=True)
+    put("obs-ok", obs=[[0, 1], [1, 0]], oint=True)
+    for k in (0, 1):
+        for v in P_OK:
+            put("prob-ok", probs=_set_elem([0.25, 0.75], (k,), v))
+        for v in P_BAD:
+            put("prob", probs=_set_elem([0.25, 0.75], (k,), v))
+    for v in P_BAD[:2] + P_OK[:2]:
+        put("prob" if v in P_BAD else "prob-ok", probs=[v])
+    put("prob", probs=[0], pint=True)
+    put("prob", probs=[1], pint=True)
+    put("prob", probs=[0, 1], pint=True)
+    for m in MODE_BAD:
+        put("mode", mode=m)
+    put("mode-ok", mode="upper")
+    return out
+
+
 def gen_rm_bad(rng):
-    return dict(fcst=[rng.choice([0.5, 0.0, 1.0, 1.25, -0.25, NAN])], obs=[rng.choice([0.0, 1.0, 0.5, 2.0, NAN])],
-                probs=[rng.choice([0.5, 0.25, 0.0, 1.0, 1.5])], mode=rng.choice(["lower", "upper", "Upper", "x"]))
+    b = rm_bad_base()
+    b["fcst"] = [[rng.choice(F_OK + [0.25, 0.75]) for _ in range(2)] for _ in range(2)]
+    b["obs"] = [[rng.choice(O_OK) for _ in range(2)] for _ in range(2)]
+    b["probs"] = rng.choice([[0.25, 0.75], [0.75, 0.25], [0.5], [TINY, 1 - TINY], [0.25, 0.5]])
+    b["mode"] = rng.choice(["lower", "upper"])
+    r = rng.random()
+    nf = 0 if r < 0.15 else (1 if r < 0.8 else 2)
+    for fault in rng.sample(["fcst", "obs", "prob", "mode"], nf):
+        b["fault"].append(fault)
+        pos = (rng.randrange(2), rng.randrange(2))
+        if fault == "fcst":
+            b["fcst"] = _set_elem(b["fcst"], pos, rng.choice(F_BAD))
+        elif fault == "obs":
+            b["obs"] = _set_elem(b["obs"], pos, rng.choice(O_BAD))
+        elif fault == "prob":
+            b["probs"] = _set_elem(b["probs"], (rng.randrange(len(b["probs"])),), rng.choice(P_BAD))
+        else:
+            b["mode"] = rng.choice(MODE_BAD)
+    return b
 
 
 def rm_bad_outcome(b):
     from scores.emerging import risk_matrix_score
-    f = xr.DataArray(np.array([b["fcst"]], dtype=float), dims=["case", "sev"], coords={"sev": ["S0"]})
-    o = xr.DataArray(np.array([b["obs"]], dtype=float), dims=["case", "sev"], coords={"sev": ["S0"]})
-    w = xr.DataArray(np.array([[1.0]]), dims=["prob", "sev"], coords={"prob": b["probs"], "sev": ["S0"]})
+    sev = ["S0", "S1"]
+    f = xr.DataArray(np.array(b["fcst"], dtype=float), dims=["case", "sev"], coords={"sev": sev})
+    o = xr.DataArray(np.array(b["obs"], dtype=(int if b.get("oint") else float)), dims=["case", "sev"], coords={"sev": sev})
+    probs = np.array(b["probs"], dtype=(int if b.get("pint") else float))
+    w = xr.DataArray(np.ones((len(b["probs"]), 2)), dims=["prob", "sev"], coords={"prob": probs, "sev": sev})
     try:
         with np.errstate(all="ignore"):
-            risk_matrix_score(f, o, w, "sev", "prob", threshold_assignment=b["mode"], preserve_dims="all")
-        return "ok"
+            r = risk_matrix_score(f, o, w, dimname("sev"), dimname("prob"), threshold_assignment=fresh(b["mode"]),
+                                  preserve_dims=fresh("all"))
+        return "ok" if isinstance(r, xr.DataArray) else "returned " + type(r).__name__
     except Exception as ex:  # noqa: BLE001
         return core.exc_class(ex)
+
+
+def rm_bad_op(b, op="c12.rm_check"):
+    flat = lambda m: [core.fl_str(float(x)) for row in m for x in row]
+    return {"op": op, "args": {"fcst": flat(b["fcst"]), "obs": flat(b["obs"]),
+                               "probs": [core.fl_str(float(x)) for x in b["probs"]], "mode": b["mode"]}}
+
+
+def rm_guard_batch(ctx, batch, kind, n_random):
+    bads = rm_bad_grid() + [gen_rm_bad(ctx.rng) for _ in range(n_random)]
+    op = "c12.rm_check" if kind == "correspondence" else "c12.rm_domain"
+    res = core.run_driver("C12", [rm_bad_op(b, op) for b in bads])
+    for b, m in zip(bads, res):
+        raises = bool(m) if kind == "correspondence" else not bool(m)
+        ctx.case(batch, b, nontrivial=False)
+        ctx.tag("malformed")
+        for fl in (b.get("fault") or ["none"]):
+            ctx.tag("rm-guard:" + fl)
+        got = rm_bad_outcome(b)
+        exp = "ValueError" if raises else "ok"
+        if got != exp:
+            sig = "guard" if kind == "correspondence" else ("accepts-outside-domain" if raises else "rejects-inside-domain")
+            ctx.fail(batch, kind, "risk_matrix_score", sig, dict(b, check="rm-guard"), observed=got, expected=exp,
+                     tags={"fault": "+".join(b.get("fault") or ["none"])},
+                     theorem=None if kind == "correspondence" else "rm_guard_iff_domain")
+
+
+# ---- probability-threshold coordinates of the two weight-matrix constructors: strictly inside (0, 1)
+def pc_grid():
+    out = []
+    for k in (0, 1):
+        for v in P_OK + P_BAD:
+            out.append(dict(probs=_set_elem([0.25, 0.75], (k,), v), pint=False))
+    out += [dict(probs=[0, 1], pint=True), dict(probs=[1, 0], pint=True)]
+    return out
+
+
+def pc_outcome(c, which):
+    from scores.emerging import matrix_weights_to_array, weights_from_warning_scaling
+    probs = [int(p) for p in c["probs"]] if c.get("pint") else list(c["probs"])
+    try:
+        if which == "matrix_weights_to_array":
+            r = matrix_weights_to_array(np.array([[1.0, 2.0], [3.0, 4.0]]), dimname("sev"), ["S0", "S1"], dimname("prob"), probs)
+        else:
+            r = weights_from_warning_scaling(np.array([[0, 1, 2], [0, 1, 1], [0, 0, 0]]), [1.0, 2.0], dimname("sev"),
+                                             ["S0", "S1"], dimname("prob"), probs)
+        return "ok" if isinstance(r, xr.DataArray) else "returned " + type(r).__name__
+    except Exception as ex:  # noqa: BLE001
+        return core.exc_class(ex)
+
+
+def pc_guard_batch(ctx, batch):
+    cs = pc_grid()
+    res = core.run_driver("C12", [{"op": "c12.rm_domain", "args": {"fcst": [], "obs": [], "mode": "lower",
+                                                                   "probs": [core.fl_str(float(x)) for x in c["probs"]]}}
+                                  for c in cs])
+    for c, m in zip(cs, res):
+        for which in ("matrix_weights_to_array", "weights_from_warning_scaling"):
+            ctx.case(batch, dict(c, which=which), nontrivial=False)
+            ctx.tag("malformed")
+            got = pc_outcome(c, which)
+            exp = "ok" if m else "ValueError"
+            if got != exp:
+                ctx.fail(batch, "property", which, "accepts-outside-domain" if not m else "rejects-inside-domain",
+                         dict(c, which=which, check="pc-guard"), observed=got, expected=exp)
 
 
 # ------------------------------------------------------------------------------------------ weight matrices
@@ -525,15 +846,7 @@ def scaling_spec(c):
 # ------------------------------------------------------------------------------------------ interface
 def correspondence(ctx):
     run_firm_batch(ctx, "impl-vs-model:firm", "correspondence", "c12.firm", ctx.n(120, 2500))
-    bads = [gen_firm_bad(ctx.rng) for _ in range(ctx.n(40, 400))]
-    res = core.run_driver("C12", [firm_bad_op(b) for b in bads])
-    for b, m in zip(bads, res):
-        ctx.case("impl-vs-model:firm-guards", b, nontrivial=False)
-        ctx.tag("malformed")
-        got = firm_bad_outcome(b)
-        if (got == "ValueError") != bool(m) or got not in ("ok", "ValueError"):
-            ctx.fail("impl-vs-model:firm-guards", "correspondence", "firm", "guard", dict(b, check="firm-guard"),
-                     observed=got, expected="ValueError" if m else "ok")
+    firm_guard_batch(ctx, "impl-vs-model:firm-guards", "correspondence", ctx.n(60, 600))
     rms = [gen_rm(ctx.rng) for _ in range(ctx.n(120, 2500))]
     res = core.run_driver("C12", [rm_op(c) for c in rms])
     for c, r in zip(rms, res):
@@ -542,18 +855,7 @@ def correspondence(ctx):
         for site, sig, ob, ex, tags in rm_compare(c, r, "model"):
             ctx.fail("impl-vs-model:risk_matrix_score", "correspondence", site, sig, dict(c, check="rm"), observed=ob,
                      expected=ex, tags=tags)
-    bads = [gen_rm_bad(ctx.rng) for _ in range(ctx.n(30, 300))]
-    res = core.run_driver("C12", [{"op": "c12.rm_check", "args": {"fcst": [core.fl_str(x) for x in b["fcst"]],
-                                                                  "obs": [core.fl_str(x) for x in b["obs"]],
-                                                                  "probs": [core.fl_str(x) for x in b["probs"]],
-                                                                  "mode": b["mode"]}} for b in bads])
-    for b, m in zip(bads, res):
-        ctx.case("impl-vs-model:rm-guards", b, nontrivial=False)
-        ctx.tag("malformed")
-        got = rm_bad_outcome(b)
-        if (got == "ValueError") != bool(m) or got not in ("ok", "ValueError"):
-            ctx.fail("impl-vs-model:rm-guards", "correspondence", "risk_matrix_score", "guard", dict(b, check="rm-guard"),
-                     observed=got, expected="ValueError" if m else "ok")
+    rm_guard_batch(ctx, "impl-vs-model:rm-guards", "correspondence", ctx.n(40, 400))
     # weight matrices
     mws = [gen_mw(ctx.rng, bad=(k % 5 == 4)) for k in range(ctx.n(60, 600))]
     res = core.run_driver("C12", [mw_op(c) for c in mws])
@@ -640,6 +942,10 @@ def oracle(ctx, boost):
                      dict(c, check="scaling-property"), observed=got, expected=spec,
                      tags={"finding": "scaling-tall"} if tall else {})
     scaling_probe(ctx)
+    # the documented parameter domains on the implementation: boundary grid (deterministic) + random one/two-fault stream
+    firm_guard_batch(ctx, "impl-vs-spec:firm-domain", "property", ctx.n(60, 600) * m)
+    rm_guard_batch(ctx, "impl-vs-spec:rm-domain", "property", ctx.n(40, 400) * m)
+    pc_guard_batch(ctx, "impl-vs-spec:prob-threshold-domain")
 
 
 def scaling_probe(ctx):
@@ -686,6 +992,13 @@ def replay(ctx, payload):
         da = call_scaling(case)
         return da.transpose("prob", "sev").values.tolist() != scaling_spec(case)
     if chk == "firm-guard":
-        m = core.run_driver("C12", [firm_bad_op(case)])[0]
-        return (firm_bad_outcome(case) == "ValueError") != bool(m)
+        inside = bool(core.run_driver("C12", [firm_bad_op(case, "c12.firm_domain")])[0])
+        return firm_bad_outcome(case) != ("ok" if inside else "ValueError")
+    if chk == "rm-guard":
+        inside = bool(core.run_driver("C12", [rm_bad_op(case, "c12.rm_domain")])[0])
+        return rm_bad_outcome(case) != ("ok" if inside else "ValueError")
+    if chk == "pc-guard":
+        inside = bool(core.run_driver("C12", [{"op": "c12.rm_domain", "args": {
+            "fcst": [], "obs": [], "mode": "lower", "probs": [core.fl_str(float(x)) for x in case["probs"]]}}])[0])
+        return pc_outcome(case, case["which"]) != ("ok" if inside else "ValueError")
     return True
